@@ -121,6 +121,11 @@ class AccessMixin:
         cell.conc = None
         return ty
 
+    def unknown_cell(self, kind="list"):
+        c = Cell(kind, conc=None, sym=None, fresh=True)
+        c.unknown = True
+        return c
+
     def mutate(self, cell, what="mutation"):
         """called before every in-place change of a container: frame accounting"""
         ctx = self.ctx
@@ -132,8 +137,18 @@ class AccessMixin:
                 ctx.oblige("frame", f"{what} of {origin}", z3.BoolVal(False), top=True,
                            info={"frame": origin, "what": what})
 
+    def write_back_unknown(self, cell):
+        ctx = self.ctx
+        if cell.home is not None:
+            key, ref, ty = cell.home
+            arr = self.heap_array(key, ty)
+            ctx.heap[key] = z3.Store(arr, ref, z3.Const(ctx.fresh_name("unk"), sort_of(ty)))
+            self.note_field_write(SV(TRef("?"), ref), key)
+
     def write_back(self, cell):
         ctx = self.ctx
+        if getattr(cell, "unknown", False):
+            return self.write_back_unknown(cell)
         if cell.home is not None:
             key, ref, ty = cell.home
             arr = self.heap_array(key, ty)
@@ -142,6 +157,8 @@ class AccessMixin:
 
     def seq_len(self, v):
         ctx = self.ctx
+        if getattr(v, "unknown", False):
+            return Opaque("len")
         if is_str(v):
             return ctx.strs.length(v)
         if isinstance(v, tuple):
@@ -172,6 +189,8 @@ class AccessMixin:
 
     def list_get(self, cell, i):
         ctx = self.ctx
+        if getattr(cell, "unknown", False):
+            return Opaque("elem", fresh=cell.fresh)
         if cell.sym is None:
             if isinstance(i, int):
                 if -len(cell.conc) <= i < len(cell.conc):
@@ -201,6 +220,8 @@ class AccessMixin:
     def list_append(self, cell, v):
         ctx = self.ctx
         self.mutate(cell, "append")
+        if getattr(cell, "unknown", False):
+            return
         if cell.sym is None:
             cell.conc.append(v)
         else:
@@ -213,8 +234,14 @@ class AccessMixin:
     def list_extend(self, cell, other):
         ctx = self.ctx
         self.mutate(cell, "extend")
-        if isinstance(other, Opaque):
-            raise Unsupported("extend by opaque value")
+        if getattr(cell, "unknown", False):
+            return
+        if isinstance(other, Opaque) or getattr(other, "unknown", False):
+            # content no longer known; identity, freshness and origin are kept
+            cell.conc, cell.sym = None, None
+            cell.unknown = True
+            self.write_back_unknown(cell)
+            return
         if isinstance(other, tuple):
             other = Cell("list", conc=list(other))
         if not isinstance(other, Cell) or other.kind != "list":
@@ -283,8 +310,8 @@ class AccessMixin:
         v = self.eval(n.value)
         if isinstance(v, Opaque):
             if not isinstance(n.slice, ast.Slice):
-                self.eval(n.slice)
-            return Opaque("subscript", fresh=isinstance(n.slice, ast.Slice))
+                self.eval_tolerant(n.slice)
+            return Opaque(v.desc + "[]", fresh=v.fresh)      # an element / view of v: as fresh as v itself
         if v is None or (isinstance(v, SV) and v.ty.name == "Opt"):
             v = ctx.unopt(v, "TypeError", "subscript-on-None")
         if isinstance(n.slice, ast.Slice):
@@ -472,7 +499,7 @@ class AccessMixin:
     def getattr(self, v, attr):
         ctx = self.ctx
         if isinstance(v, Opaque):
-            return Opaque(f"{v.desc}.{attr}")
+            return Opaque(f"{v.desc}.{attr}", fresh=v.fresh)
         if isinstance(v, Builtin):
             return Builtin(v.name + "." + attr)
         if isinstance(v, ClassRef):
@@ -532,6 +559,15 @@ class AccessMixin:
         return None
 
     def comprehension(self, n, kind):
+        try:
+            return self.comprehension_(n, kind)
+        except Unsupported:
+            if self.ctx.spec:
+                raise
+            # the comprehension's value is outside the encoding: a fresh container of unknown content
+            return self.unknown_cell("set" if kind == "set" else "list")
+
+    def comprehension_(self, n, kind):
         ctx = self.ctx
         if len(n.generators) != 1:
             return self.comprehension_nested(n, kind)
@@ -562,8 +598,8 @@ class AccessMixin:
             if kind == "set":
                 return Cell("set", conc=set(self._hashable(o) for o in out), fresh=True)
             return Cell("list", conc=out, fresh=True)
-        if isinstance(it, Opaque):
-            return Opaque("comprehension", fresh=True)
+        if isinstance(it, Opaque) or getattr(it, "unknown", False):
+            return self.unknown_cell("set" if kind == "set" else "list")
         return self.symbolic_comprehension(n, g, it, kind)
 
     def comprehension_nested(self, n, kind):
